@@ -1119,7 +1119,11 @@ class PyFat(object):
             self.__fp.seek(0)
 
         try:
-            self.__fp.truncate(size + self.__fp_offset)
+            if self.__fp.seek(0, SEEK_END) < size + self.__fp_offset:
+                # Only ever extend the underlying file, it may contain
+                # other partitions behind this one
+                self.__fp.truncate(size + self.__fp_offset)
+            self.__fp.seek(0)
         except OSError:
             raise PyFATException("Failed to truncate file to given size. "
                                  "Most likely the file can't be extended.",
